@@ -214,6 +214,27 @@ Definition h7 : state := Eval vm_compute in next cfw h6 hb7.
 Definition hb8 : block := Eval vm_compute in
   build cfw h7 8000 true [gtx 801 8000 2; pay 802 8000 [mkSlip 1 2700000 SNormal 7 0 0] [out 1 2650000]] (mkOracle 2 1 1).
 
+(* 7. (stray-bound-output-becomes-value, repaired by 5a3c1b6) an NFT-creating transaction with
+      an extra Bound output of 1_000_000: Transaction::validate refuses it now (the oracle field
+      t_ok, as observed on the real node by the scripted case stray-bound-output) *)
+Definition m2 : block := Eval vm_compute in
+  build cfw s1 2000 false
+        [pay 201 2000 [mkSlip 1 3000000 SNormal 1 0 0] [out 1 2900000];
+         mkTx TBound 2000 [mkSlip 1 800000 SNormal 1 4 0]
+              [mkSlip 1 1 SBound 0 0 0; mkSlip 1 700000 SNormal 0 0 0; mkSlip 77 0 SBound 0 0 0;
+               mkSlip 1 100000 SNormal 0 0 0; mkSlip 1 1000000 SBound 0 0 0]
+              0 0 0 202 false]
+        (mkOracle 0 0 0).
+
+(* 8. (spv-transaction-spends-bound-slip, repaired by 66d7fd0) block 3 carries an SPV-typed
+      transaction of key 3 whose input is the first Bound slip (2:1:0, amount 1) of key 1's NFT
+      group: an SPV transaction with a valued input is refused by Transaction::validate now *)
+Definition q3 : block := Eval vm_compute in
+  build cfw t2 3000 true
+        [gtx 301 3000 2; pay 302 3000 [mkSlip 1 2900000 SNormal 2 0 0] [out 1 2800000];
+         mkTx TSPV 3000 [mkSlip 1 1 SBound 2 1 0] [mkSlip 3 0 SNormal 0 0 0] 0 0 0 303 false]
+        (mkOracle 2 1 0).
+
 (* ---------- the witnesses as statements ---------- *)
 (* the blocks [bs] (oldest first) are accepted one after the other by the model's node *)
 Fixpoint run (cf : config) (st : state) (bs : list block) : option state :=
@@ -229,39 +250,39 @@ Definition breaks_conservation (cf : config) (g : block) (bs : list block) (b : 
              validate c15 c05 cf st b = Ok true /\
              supply (cf_gp cf) (wind cf st b) <> supply (cf_gp cf) st /\
              crashed cf st b = true.
+(* [b] is refused on top of the chain [bs] *)
+Definition refused (cf : config) (g : block) (bs : list block) (b : block) : Prop :=
+  exists st, run cf (boot cf g) bs = Some st /\ validate c15 c05 cf st b = Ok false.
+(* [b] is accepted on top of the chain [bs], the supply is unchanged, the node's check passes *)
+Definition accepted_conserving (cf : config) (g : block) (bs : list block) (b : block) : Prop :=
+  exists st, run cf (boot cf g) bs = Some st /\
+             validate c15 c05 cf st b = Ok true /\
+             supply (cf_gp cf) (wind cf st b) = supply (cf_gp cf) st /\
+             added cf st b = true.
 
-Lemma fee_tx_omitted_breaks : breaks_conservation cfw genesis [b2; b3; b4] b5_nofee
-  /\ Known_C02_fee_tx_omitted c15 c05 cfw s4 b5_nofee = true.
-Proof. split; [exists s4; repeat split; vm_compute; congruence | vm_compute; reflexivity]. Qed.
+(* regressions: the witnesses of the defects repaired by 60ba6d1, b8552b5, 1fdb9e1, bb88717, e1b5241 *)
+Lemma fee_tx_omitted_refused : refused cfw genesis [b2; b3; b4] b5_nofee.
+Proof. exists s4; split; vm_compute; reflexivity. Qed.
+Lemma zero_miner_refused : refused cfw genesis [b2; b3; b4] b5_zero.
+Proof. exists s4; split; vm_compute; reflexivity. Qed.
+Lemma stake_fee_conserved : accepted_conserving cfw genesis [b2] b3_stake.
+Proof. exists s2; repeat split; vm_compute; reflexivity. Qed.
+Lemma stale_spend_refused : refused cfw genesis [b2; b3; b4; b5] b6_stale.
+Proof. exists s5; split; vm_compute; reflexivity. Qed.
+Lemma nft_expiring_conserved : accepted_conserving cfw genesis [n2; n3; n4; n5] n6.
+Proof. exists t5; repeat split; vm_compute; reflexivity. Qed.
+(* multiplier 2 at block 8: the block the producer builds is accepted, under the 5 % cap *)
+Lemma producer_block_accepted :
+  accepted_conserving cfw hg [hb2; hb3; hb4; hb5; hb6; hb7] hb8 /\
+  atr_mult 3 (the_input cfw h7 hb8) = 2 /\
+  match cv_inf c15 c05 cfw h7 hb8 with Ok c => c_cap c | _ => false end = true.
+Proof. split; [exists h7; repeat split; vm_compute; reflexivity | split; vm_compute; reflexivity]. Qed.
 
-Lemma zero_miner_breaks : breaks_conservation cfw genesis [b2; b3; b4] b5_zero
-  /\ Known_C02_zero_miner c15 c05 cfw s4 b5_zero = true.
-Proof. split; [exists s4; repeat split; vm_compute; congruence | vm_compute; reflexivity]. Qed.
-
-Lemma stake_fee_breaks : breaks_conservation cfw genesis [b2] b3_stake
-  /\ Known_C02_special_tx b3_stake = true.
-Proof. split; [exists s2; repeat split; vm_compute; congruence | vm_compute; reflexivity]. Qed.
-
-Lemma stale_spend_breaks : breaks_conservation cfw genesis [b2; b3; b4; b5] b6_stale
-  /\ Known_C13_expired_input cfw b6_stale = true.
-Proof. split; [exists s5; repeat split; vm_compute; congruence | vm_compute; reflexivity]. Qed.
-
-Lemma nft_expiring_breaks : breaks_conservation cfw genesis [n2; n3; n4; n5] n6
-  /\ Known_C02_nft_expiring cfw t5 n6 = true.
-Proof. split; [exists t5; repeat split; vm_compute; congruence | vm_compute; reflexivity]. Qed.
-
-(* the producer's own block is refused: multiplier 2 at block 8 *)
-Lemma producer_block_refused :
-  run cfw (boot cfw hg) [hb2; hb3; hb4; hb5; hb6; hb7] = Some h7 /\
-  (exists h txs, produce c15 c05 cfw h7 8000 true
-                   [gtx 801 8000 2; pay 802 8000 [mkSlip 1 2700000 SNormal 7 0 0] [out 1 2650000]] BF (mkOracle 2 1 1)
-                 = Ok (h, txs) /\ hb8 = mkBlock h txs BF (mkOracle 2 1 1) true true true true) /\
-  validate c15 c05 cfw h7 hb8 = Ok false /\
-  atr_mult 3 (the_input cfw h7 hb8) = 2.
-Proof.
-  split; [vm_compute; reflexivity|]. split; [eexists; eexists; split; vm_compute; reflexivity|].
-  split; vm_compute; reflexivity.
-Qed.
+(* regressions of 5a3c1b6 and 66d7fd0 *)
+Lemma stray_bound_refused : refused cfw genesis [] m2.
+Proof. exists s1; split; vm_compute; reflexivity. Qed.
+Lemma spv_bound_refused : refused cfw genesis [n2] q3.
+Proof. exists t2; split; vm_compute; reflexivity. Qed.
 
 (* the node's own check cannot see a change of 2^64 (release profile) *)
 Definition big_slip (i : N) : slip := mkSlip 9 9223372036854775808 SNormal 6 9 i.
@@ -271,3 +292,13 @@ Lemma check_blind_to_2_64 :
   check_total_supply cfr (big_slip 0 :: big_slip 1 :: u) h (st_init s6) = Ok (st_init s6) /\
   big_node_supply cfr (big_slip 0 :: big_slip 1 :: u) h = big_node_supply cfr u h + two64.
 Proof. repeat split; vm_compute; reflexivity. Qed.
+
+(* regression of 8712765: the age test saturates, a transaction naming block id 2^64-1 is
+   refused in both profiles (it was a panic in the debug profile) *)
+Definition b3_far : block := Eval vm_compute in
+  match build cfr s2 3000 true
+        [gtx 301 3000 2; pay 302 3000 [mkSlip 1 2900000 SNormal 18446744073709551615 0 0] [out 1 2900000]]
+        (mkOracle 2 1 0) with b => b end.
+Lemma age_sum_saturates :
+  validate c15 c05 cfw s2 b3_far = Ok false /\ validate c15 c05 cfr s2 b3_far = Ok false.
+Proof. split; vm_compute; reflexivity. Qed.
